@@ -31,8 +31,10 @@ Proof. intros A B f d. split; [exact (unpairn_gmap f) | exact (from_comb_gmap f 
 Print Assumptions C17_unpair_pair_n_blind.
 
 (* COMPARE: the result does not depend on annotations at all *)
-Theorem C17_compare_blind : forall {A B} (f : A -> B) a b, vcmp (gmap f a) (gmap f b) = vcmp a b.
-Proof. intros A B f. exact (vcmp_gmap f). Qed.
+Theorem C17_compare_blind : forall {A B} (f : A -> B) a b,
+  vcmp (gmap f a) (gmap f b) = vcmp a b /\
+  compare_checked (gmap f a) (gmap f b) = compare_checked a b.     (* including the operand type check *)
+Proof. intros A B f a b. split; [exact (vcmp_gmap f a b) | exact (compare_checked_gmap f a b)]. Qed.
 Print Assumptions C17_compare_blind.
 
 (* serialization: the Micheline value in every mode (readable / optimized = PACK / legacy) is
